@@ -864,6 +864,21 @@ Lemma tb_program_order :
            (states (step (tb_prog maxs)) (init_state m0 progs) sched).
 Proof. intros. apply hinv_reach. Qed.
 
+Lemma ab_program_order :
+  forall (b : bcfg) (dec : Z -> Z) (m0 : mem) (progs : list (list ab_call))
+         (sched : list (nat * bool)),
+    Forall (fun s => forall tid t, nth_error (st_thr s) tid = Some t ->
+                       done_calls tid (st_log s) ++ cur_calls t ++ th_calls t = nth tid progs [])
+           (states (step (ab_prog b dec)) (init_state m0 progs) sched).
+Proof. intros. apply hinv_reach. Qed.
+
+(* the rounding of (x as f64) at the boundaries the generator uses *)
+Example r53_samples :
+  (r53 (U64MAX - 1), Z.min (r53 U64MAX) U64MAX, r53 (2 ^ 53 + 3), r53 (2 ^ 53 + 1), r53 (2 ^ 63 + 1024),
+   dec_q 1 1 (U64MAX - 1), dec_q 1 2 (2 ^ 53 + 3), dec_q 1 1 7, dec_q 3 2 5)
+  = (2 ^ 64, U64MAX, 2 ^ 53 + 4, 2 ^ 53, 2 ^ 63, U64MAX, 2 ^ 52 + 2, 7, 7).
+Proof. vm_compute. reflexivity. Qed.
+
 (* ------------------------------------------------------------------------- *)
 (* Regression witness: with the pinned deposit (load; store) conservation fails.
    Worker 0 deposits, worker 1 withdraws between the deposit's load and store:
